@@ -212,6 +212,34 @@ CLAIMS["C15"] = dict(
     technique="2D access-relation decoding (polynomial identities) + relation-set closure under transposition + algebraic GVN + vector rank typing",
     ref="DESIGN.md section 4 C15")
 
+# rules added after the second round of seeded changes (DESIGN.md section 2.6 and end of section 4)
+EXTRA = {
+    "C01": ("STATE-MEMO, SRC-OWN, stale right-hand-side arrays, FD-COLUMN on linear and nonlinear first calls", "persistent-state (memo) and alias / in-place effect analyses"),
+    "C02": ("STATE-MEMO on the flux dispatchers and helpers, DTYPE-FOLLOW", "persistent-state (memo) analysis, dtype-following buffers"),
+    "C03": ("STATE-MEMO, the insub_cbc fixed point is decided (declared perfect-square root)", "persistent-state (memo) analysis"),
+    "C04": ("INTEG-ORDER (nominal order of the explicit integrators) and WAVE-ENCLOSE (Einfeldt enclosure) as further premises, STATE-MEMO", "exact Runge-Kutta order conditions, lattice normal form of wave speeds, persistent-state (memo) analysis"),
+    "C05": ("stage slopes kept by reference across right-hand-side evaluations (provider-owned arrays), STATE-MEMO", "heap ownership in the affine domain"),
+    "C06": ("FD-STEP-ABS, column copies under index conditions, JAC-GUARD on model and reconstruction linearity, JAC-LINEAR", "generic-iteration path exploration in AFF, access-relation linearity of reconstructions"),
+    "C07": ("DRV-CALLER-PURE on the input dictionaries, STATE-MEMO on the driver", "persistent-state (memo) analysis"),
+    "C08": ("EFF-RUN-COUNTER, DRV-CALLER-PURE, STATE-MEMO", "persistent-state (memo) analysis"),
+    "C10": ("FAN-UPWIND (supersonic limit of hlle / hllc / hll) and CFL-CELLSIZE as further premises, STATE-MEMO", "algebraic GVN upwind identities"),
+    "C11": ("GRAD-2D, stage plan of rhs() per reconstruction class, STATE-MEMO", "constructor-summary evaluation of stage conditions, persistent-state (memo) analysis"),
+    "C12": ("np.all / np.any as reductions over an array context (every outcome path), KERNEL-POINTWISE", "path enumeration over reduction outcomes, point-wise kernel scan"),
+    "C13": ("mirror twin of the periodic gradient closure, STATE-MEMO", "absolute-index reflection of decoded relations"),
+    "C14": ("stage plan of rhs() per reconstruction class, STATE-MEMO", "persistent-state (memo) analysis"),
+    "C15": ("BC-ALIAS (views changed in place by boundary functions, overwritten argument lists), STATE-MEMO, dtype of normals where inherited", "alias / in-place effect analysis"),
+    "C16": ("BC-ALIAS, STATE-MEMO, outgoing invariant of outsub_nrcbc with the definition used for insub_cbc", "alias / in-place effect analysis"),
+    "C17": ("VAR-PURE, KERNEL-POINTWISE (reductions, extent-dependent branches), STATE-MEMO", "alias / in-place effect analysis, point-wise kernel scan"),
+    "C18": ("1D DT-CELLSIZE decoded on the abstract discretisation, DT-LOCAL, KERNEL-POINTWISE, STATE-MEMO", "access-relation decoding of the cell-size argument, point-wise kernel scan"),
+    "C19": ("role of the data handed to source callables, STATE-MEMO", "persistent-state (memo) analysis"),
+    "C20": ("semantic MESH-AVG by symbolic sums, MESH-FROZEN, STATE-MEMO", "symbolic summation over the cell index, alias / in-place effect analysis"),
+}
+for _pid, (_t, _tech) in EXTRA.items():
+    if _pid in CLAIMS:
+        CLAIMS[_pid]["text"] = CLAIMS[_pid]["text"] + " Also decided (added after the second round of seeded changes): " + _t + "."
+        CLAIMS[_pid]["technique"] = CLAIMS[_pid]["technique"] + " + " + _tech
+CLAIMS["C03"]["text"] = CLAIMS["C03"]["text"].replace("Not decided: 'to round-off'; insub_cbc root selection.", "Not decided: 'to round-off'.")
+
 NA_REASONS = {
     "C09": ("runtime invariant of trajectories (range and total variation after every step for all data); its "
             "code-shape premises are owned and decided by C02, C05, C11, C12, C18; the remaining step (flux "
